@@ -150,7 +150,13 @@ func ruleC08(w *World, r *Report) {
 			}
 		}
 	}
-	r.Check(same && len(a) > 0, "C08.mpt.sibling", "SIBLING", "08-bsc / 09-eth verifyMerkleProof", "-", fmt.Sprintf("BSC and ETH verifiers require the same %d conditions", len(a)), "the BSC and ETH Merkle-Patricia verifiers differ in the conditions they require for success:"+diff)
+	// A structural difference between the two copies is not by itself a violation (one may
+	// have been refactored); the per-client obligations above decide. Reported for the reader.
+	if same && len(a) > 0 {
+		r.OK("C08.mpt.sibling", "SIBLING", "08-bsc / 09-eth verifyMerkleProof", "-", fmt.Sprintf("BSC and ETH verifiers require the same %d conditions", len(a)))
+	} else {
+		r.Info("C08.mpt.sibling", "SIBLING", "08-bsc / 09-eth verifyMerkleProof", "-", "the BSC and ETH Merkle-Patricia verifiers are structured differently:"+clip(diff))
+	}
 
 	// ---- static length of values reaching the 32-byte comparison
 	for _, ct := range []string{pBSC, pETH} {
